@@ -1,9 +1,10 @@
 '''C05 - universes and FILL: points are located through the hierarchy.'''
 from .. import model as M
-from .. import gen_univ
+from .. import gen_univ, gen_mix
 from ..judge import convert_deck, crash_violation, region_agreement, summarise
 
 ID = 'C05'
+UPSTREAM_DECKS = True
 LEVEL = 'exploration'
 RULE = ('decks with universes nested to depth 1-4, fan-out 2-3 cells per '
         'universe, universes reused with different and with the same '
@@ -29,6 +30,7 @@ REQUIRED_REACH = ['CellConversion.pot_fill', 'CellConversion.cell_transform',
                   'ParseMCNPCell.parse_fill_kw']
 
 _PER = {'quick': 14, 'thorough': 900}
+_PER_MIX = {'quick': 3, 'thorough': 150}
 
 
 def attach_monitors():
@@ -43,10 +45,13 @@ def monitor_counts():
 
 
 def plan(tier):
-    return [(fam, _PER[tier]) for fam in gen_univ.FAMILIES]
+    return [(fam, _PER[tier]) for fam in gen_univ.FAMILIES] + \
+        [(f'mix:{fam}', _PER_MIX[tier]) for fam in gen_mix.FAMILIES]
 
 
 def build(case):
+    if case.family.startswith('mix:'):
+        return gen_mix.build(case.rng, case.family[4:])
     return gen_univ.build(case.rng, case.family)
 
 
@@ -55,7 +60,8 @@ def run(case, ctx):
     out = Outcome()
     deck = build(case)
     out.tags |= deck.tags
-    out.structure = gen_univ.structure_of(deck)
+    out.structure = gen_mix.structure_of(deck) \
+        if case.family.startswith('mix:') else gen_univ.structure_of(deck)
     run_ = convert_deck(case, ctx, out, deck)
     if not run_.ok:
         crash_violation(out, run_)
